@@ -186,7 +186,10 @@ def gen_c11(tier, seed):
     n = 800 if tier == "quick" else 15000
     cases = []
     fams = [{}, {"rdiscard": 1}, {"rparent": 1}, {"out": R_PATH, "err": R_STDOUT}, {"in": R_HANDLE, "out": R_FILE},
-            {"err": R_PIPE}, {"rpath": 1}, {"in": R_DISCARD, "out": R_DISCARD, "err": R_DISCARD}]
+            {"err": R_PIPE}, {"rpath": 1}, {"in": R_DISCARD, "out": R_DISCARD, "err": R_DISCARD},
+            # user-supplied handles/FILEs at low descriptor numbers and without close-on-exec
+            {"in": R_HANDLE, "err": R_FILE, "hlow": 1}, {"out": R_HANDLE, "err": R_HANDLE, "hlow": 1},
+            {"in": R_FILE, "out": R_FILE, "err": R_STDOUT, "hlow": 1}, {"rfile": 1, "in": R_HANDLE, "hlow": 1}]
     for i in range(n):
         r = rng_for(seed, "c11", i)
         limit = r.choice([64, 64, 256, 1024, 4096, 20000])
@@ -197,6 +200,8 @@ def gen_c11(tier, seed):
         inclmax = 1 if i % 3 == 0 else 0
         o = dict(fams[i % len(fams)], ident=1, stop=KILL_POLICY)
         mask = r.choice([0, 0, 0, 1, 4, 7])
+        if o.get("hlow"):
+            mask = 0  # user handles must stay >= 3 (crossing them onto 0-2 is outside the quantifier)
         parts = ["rlimit %d" % limit]
         if mask:
             parts.append("CLOSE012 %d" % mask)
@@ -229,6 +234,8 @@ def judge_c11(case, log):
     fifos = [f for f in extra if stat.S_ISFIFO(f[4])]
     others = [f for f in extra if not stat.S_ISFIFO(f[4])]
     ext = {f[0]: f[1] for f in (opened[0]["openfds"] if opened else [])}
+    if m["opts"].get("hlow"):
+        obs["inheritable_user_handles"] = 1
     limit = m["limit"]
     for f in others:
         where = "limit-1" if f[0] == limit - 1 else "other"
@@ -328,15 +335,22 @@ def gen_c03(tier, seed):
                 meta["penv"] = None
             parts.append(start_tokens(0, o))
         elif kind == 8:
-            # deep parent cwd: getcwd needs several reallocations, up to beyond PATH_MAX
-            depth = r.choice([30, 60, 120, 200, 300])
-            comp = "d" * 60
-            deep = "/".join([comp] * depth)
-            parts += ["N 0", "MKDIRS %s" % hx(deep.encode()), "LINKVC 0 %s right" % hx(b"x")]
-            o["progx"] = hx(b"./x")
+            # deep parent cwd: getcwd needs several reallocations; cwd length + program name straddle
+            # the 4096-byte growth steps of the buffer, up to beyond PATH_MAX
+            T = r.choice([4096, 4096, 8192, 12288, 16384])
+            d = r.choice([1, 2, 3, 5, 17, 100, 200, 260, 700, 2000])
+            target = T - d
+            parts += ["N 0", "CWDPAD %d" % target]
+            if r.random() < 0.5:
+                parts.append("LINKVC 0 %s right" % hx(b"x"))
+                o["progx"] = hx(b"./x")
+                meta["expect_tag"] = "right"
+            else:
+                # long relative name (need not exist: the buffer arithmetic runs before exec fails)
+                o["progx"] = hx(("sub/" + "y" * r.choice([1, 10, 100, 250])).encode())
+                meta["expect_fail"] = 1
             o["wdx"] = hx(b"/")
-            meta["deep"] = depth * 61
-            meta["expect_tag"] = "right"
+            meta["deep"] = target
             meta["wd_abs"] = "/"
             parts.append(start_tokens(0, o))
         else:
@@ -370,7 +384,7 @@ def judge_c03(case, log):
         if s["ret"] < 0:
             # beyond the OS limit only a clean failure is required (memory errors would have crashed the runner)
             obs["deep_cwd_clean_failures"] += 1
-            if m["deep"] < 3900:
+            if m["deep"] < 3900 and not m.get("expect_fail"):
                 V(vs, "C03", "deep-cwd-start-fails-below-limit", "start failed with %d for a %d-byte cwd" % (s["ret"], m["deep"]))
             return vs, obs, True
     if "hang" in s or s["ret"] <= 0:
